@@ -34,7 +34,7 @@ BROKEN = ['fn broken( {', 'this is not rust at all', 'fn ok() {}\nfn f() {\n    
 class C15(C.PipelineCheck):
     id = 'C15'
     title = 'No input makes analysis or generation panic; bad files are isolated'
-    required_covers = ('kernel:ascii', 'kernel:utf8', 'attribute', 'identifier', 'unparsable', 'isolated', 'calls', 'attr-ident')
+    required_covers = ('kernel:ascii', 'kernel:utf8', 'attribute', 'identifier', 'unparsable', 'isolated', 'calls', 'attr-ident', 'type-in')
 
     def bounds(self, tier):
         q = tier != 'thorough'
@@ -62,6 +62,10 @@ class C15(C.PipelineCheck):
                 yield ('kernel/%s/ascii%d' % (k[0], n), dict(kind='kernel', k=i, n=n, utf8=False))
             for n in range(1, (2 if q else 4) + 1):
                 yield ('kernel/%s/utf8-%d' % (k[0], n), dict(kind='kernel', k=i, n=n, utf8=True))
+        # type strings: a known constructor around a short symbolic inner text (brackets, commas, spaces): `Result<(,)>`, `HashMap< ,>` ...
+        for wrap in ('Result<%s>', 'HashMap<%s>', 'BTreeMap<%s>', 'Vec<%s>', 'Option<%s>', 'HashSet<%s>', '(%s)', 'Result<%s, String>', 'HashMap<String, %s>', 'Channel<%s>', '&%s', 'Box<%s>'):
+            for n in ((0, 1, 2, 3) if q else (0, 1, 2, 3, 4, 5)):
+                yield ('type-in/%s/%d' % (wrap.replace('%s', '_'), n), dict(kind='type-in', wrap=wrap, n=n))
         for pos in ('rename', 'alias', 'rename_all', 'message', 'length-arg', 'event', 'derive-arg'):
             for n in range(0, 3 if q else 4):
                 yield ('attr/%s/%d' % (pos, n), dict(kind='attr', pos=pos, n=n))
@@ -90,6 +94,17 @@ class C15(C.PipelineCheck):
         kind = p['kind']
 
         def body(e):
+            if kind == 'type-in':
+                inner = sym.sym_str('s', p['n'], '<>(),[]&; :ABab1_')
+                w = p['wrap'].split('%s')
+                s = Str(w[0]).concat(inner).concat(Str(w[1]))
+                e.cover('type-in')
+                e.last = ('kernel', 'type:' + p['wrap'], s)
+                r = I.call_path('TypeResolver::new', [])
+                ts = I.call_path('TypeResolver::parse_type_structure', [s], r)
+                a = I.call_path('CommandAnalyzer::new', [])
+                I.call_path('CommandAnalyzer::extract_type_names', [s, HSet([])], a)
+                return ts
             if kind == 'kernel':
                 label, path, recv = KERNELS[p['k']]
                 s = sym.sym_str_utf8('s', p['n']) if p['utf8'] else sym.sym_str('s', p['n'], 'printable')
@@ -248,6 +263,8 @@ class C15(C.PipelineCheck):
         w = f['witness']
         if 'kernel' in w:
             nat = H.Native.get()
+            if w['kernel'].startswith('type:'):
+                return any('panic' in nat.call('kernel', name=k, arg=w['input']) for k in ('parse_type_structure', 'extract_type_names'))
             r = nat.call('kernel', name=w['kernel'], arg=w['input'])
             return 'panic' in r
         rc, outs, err, _ = PL.run_native(w['files'], w['config'])
